@@ -58,7 +58,7 @@ def cases(chk):
     quick = chk.tier == 'quick'
     P = (chk.prop, chk.tier)
     N = 4 if quick else 5
-    out = [P + ('cstr', k) for k in range(0, 3 if quick else 4)]
+    out = [P + ('cstr', k) for k in range(0, 4 if quick else 5)]
     for n in range(0, N + 1):
         for osz in ((1, 4) if quick else (1, 2, 8)):
             if n >= 3:
